@@ -56,6 +56,11 @@ theorem nodup_run (s : St) (sched : List Pid) (h : Inv s) (hn : s.files.Nodup) :
   | nil => exact hn
   | cons i r ih => exact ih (step s i) (inv_step s i h) (nodup_step s i h hn)
 
+/-- where a refused request ends: an exclusive one with attempts left sleeps before its next `mkdir`, any other raises -/
+def refusedPC : Kind → Nat → PC
+  | .ex, m + 1 => .mkdir m
+  | _, _ => .failedAcq .runtime
+
 section rest
 variable {s : St} {i : Pid} {l : Nat}
 
@@ -115,6 +120,42 @@ theorem grant_reenter {k : Kind} {q : Pid} (hpc : s.pc i = .mkdir l) (hd : s.dir
   have hne' : ¬ (i = q) := fun e => hne e.symm
   cases hk : s.kind i <;> cases k <;>
     simp [run, step, hpc, hd, hf, hk, hl, setPC, others, lookList, exFiles, parentHolds, hne, hne']
+
+/-- a shared request that meets the lock file of an unrelated exclusive holder (the others at rest): announced,
+seen, withdrawn, refused — eight calls, after which directory and lock files are exactly as they were -/
+theorem refuse_shared {q : Pid} (hpc : s.pc i = .mkdir l) (hk : s.kind i = .sh) (hd : s.dir = true)
+    (hq : (Kind.ex, q) ∈ s.files) (hqi : q ≠ i) (hlp : s.lp i ≠ some q) (hnf : (Kind.sh, i) ∉ s.files) :
+    run s [i, i, i, i, i, i, i, i] = setPC s i (.failedAcq .runtime) := by
+  have hne : s.files ≠ [] := by intro e; rw [e] at hq; simp at hq
+  have hoth : (others i (s.lp i) (exFiles ((Kind.sh, i) :: s.files))).isEmpty = false := by
+    apply others_nonempty (f := (Kind.ex, q))
+    · simp [exFiles, hq]
+    · exact hqi
+    · exact hlp
+  have hfilt : List.filter (fun x => x != (Kind.sh, i)) s.files = s.files := by
+    apply List.filter_eq_self.2
+    intro a ha
+    simp only [bne_iff_ne, ne_eq]
+    intro e; rw [e] at ha; exact hnf ha
+  have hem : s.files.isEmpty = false := by
+    cases hf : s.files with
+    | nil => exact absurd hf hne
+    | cons a b => rfl
+  simp [run, step, hpc, hk, hd, hnf, setPC, lookList, hoth, afterPC, hfilt, hem]
+  funext j; by_cases hj : j = i <;> simp [upd, hj]
+
+/-- an exclusive request that meets a directory which is not just its parent's: refused at the gate in three calls
+(mkdir, the listing, the listing for the message), nothing touched; it will try again if it has attempts left -/
+theorem refuse_exclusive (hpc : s.pc i = .mkdir l) (hk : s.kind i = .ex) (hd : s.dir = true)
+    (hp : parentHolds (s.lp i) s.files = false) :
+    run s [i, i, i] = setPC s i (refusedPC .ex l) := by
+  cases l with
+  | zero =>
+    simp [run, step, hpc, hk, hd, hp, setPC, refusedPC]
+    funext j; by_cases hj : j = i <;> simp [upd, hj]
+  | succ n =>
+    simp [run, step, hpc, hk, hd, hp, setPC, refusedPC]
+    funext j; by_cases hj : j = i <;> simp [upd, hj]
 
 end rest
 
